@@ -14,11 +14,15 @@ META = {
                    'After every step the solver decides, for every live object other than the one documented to change, that its dense '
                    'value (index-loop contraction of its CURRENT cores) is identical to the value recorded when it was created -- for all '
                    'entry values AND all junk a LAPACK routine may leave in a buffer it overwrites (in-place model calibrated against the '
-                   'real SciPy at start-up); metadata/core-shape consistency of every returned train is checked on the way.',
+                   'real SciPy at start-up); metadata/core-shape consistency of every returned train is checked on the way. Scenario routines: one call of each '
+                   'solver / integrator / data-driven routine (sle.als/mals, evp.als with 1 and 2 eigenpairs, power_method, explicit/implicit Euler, '
+                   'trapezoidal, HOD with and without previous_value, TDVP 1/2-site, Krylov, the four splitting schemes, errors_*, tdmd, AMUSEt, ARR, MANDy, '
+                   'tgEDMD) on symbolic arguments under fresh symbolic LAPACK outputs: every tensor-train argument keeps value and metadata, every returned '
+                   'train is consistent, and ortho_left()/ortho_right() on one returned train leaves the arguments and all other returned trains unchanged.',
     'bounds': {'quick': 'pool shapes {[2,1,2] with ranks [1,1,2,1] / operator ranks [1,2,1,1]} and {[2,2] ranks [1,2,1]}; all histories P;Q '
                         '(~35 P x 12 Q x every live target); real data',
                'thorough': 'additionally all histories P1;P2;Q with P2 consuming the result of P1, complex data, a third pool shape'},
-    'outside': ['solver/integrator/data-driven routines are covered by one call each in their own properties (C07-C19 check "inputs unchanged" there)',
+    'outside': ['routines scenario: order 2, mode size 2, ranks {1,2} (over-parameterised rank 3 for previous_value), one step / one sweep, real data; hocur-based routines (C15 checks their inputs)',
                 'histories longer than 3', 'floating-point rounding'],
     'assumptions': ['SciPy overwrites an input buffer only in the (routine, memory layout, dtype) combinations measured by the calibration run'],
     'tv_per_scenario': {'quick': 1, 'thorough': 1},
@@ -290,7 +294,9 @@ def history3(ctx, pool, p1, p2, cplx):
 # ------------------------------------------------------------------ routines
 ROUTINES = ['sle.als', 'sle.mals', 'evp.als nev=1', 'evp.als nev=2', 'evp.power_method', 'ode.explicit_euler', 'ode.implicit_euler', 'ode.trapezoidal_rule',
             'ode.hod', 'ode.hod previous_value', 'ode.tdvp1site', 'ode.tdvp2site', 'ode.krylov', 'ode.strang_splitting', 'tdmd_exact', 'tdmd_standard',
-            'tedmd.amuset_hosvd batch', 'regression.arr', 'regression.mandy_cm']
+            'tedmd.amuset_hosvd batch', 'regression.arr', 'regression.mandy_cm', 'regression.mandy_fm', 'ode.lie_splitting', 'ode.yoshida_splitting',
+            'ode.kahan_li_splitting', 'tgedmd.amuset_hosvd', 'ode.errors_expl_euler', 'ode.errors_impl_euler',
+            'ode.errors_trapezoidal']
 
 
 def _order_eig_policy(ctx):
@@ -375,10 +381,38 @@ def routines(ctx, routine, rank, then):
             outs = R.ode.tdvp2site(A, x, h, 1, threshold=0, max_rank=50)
         elif routine == 'ode.krylov':
             outs = [R.ode.krylov(A, x, 1, h, threshold=0, max_rank=50)]
-        elif routine == 'ode.strang_splitting':
+        elif routine in ('ode.strang_splitting', 'ode.lie_splitting', 'ode.yoshida_splitting', 'ode.kahan_li_splitting'):
             S_ = ctx.input('S', (2, 2), False); L_ = ctx.input('L', (2, 2), False); M_ = ctx.input('M', (2, 2), False)
-            outs = R.ode.strang_splitting(S_, L_, ctx.lift(np.eye(2)), M_, x, h, 1, threshold=0, max_rank=50, normalize=0)
+            outs = getattr(R.ode, routine[4:])(S_, L_, ctx.lift(np.eye(2)), M_, x, h, 1, threshold=0, max_rank=50, normalize=0)
             args = {'x': x}
+        elif routine.startswith('ode.errors_'):
+            z = TT(mk_cores(ctx, 'z', sx, False))
+            getattr(R.ode, routine[4:])(A, [x, y, z], [h, h])
+            outs = []
+            args = {'A': A, 'x': x, 'y': y}
+        elif routine == 'regression.mandy_fm':
+            data = ctx.input('data', (1, 2), False)
+            yd = ctx.input('ydata', (1, 2), False)
+            outs = [R.regression.mandy_fm(data, yd, [lambda t: t, lambda t: t * t], threshold=0.0)]
+            args = {}
+        elif routine == 'tedmd.amuset_hocur':
+            data = ctx.input('data', (1, 3), False)
+            phi = [_funcs(ctx, R.transform, 1, ['const', 'id'])]
+            ev, et = R.tedmd.amuset_hocur(data, [np.array([0, 1]), np.array([0, 2])], [np.array([1, 2]), np.array([1, 0])], phi, max_rank=1000)
+            outs = list(et)
+            args = {}
+        elif routine == 'tgedmd.amuset_hosvd':
+            data = ctx.input('data', (2, 3), False)
+            sig = ctx.input('sig', (2, 2, 3), False)
+            phi = [_funcs(ctx, R.transform, 1, ['const', 'id']), [R.transform.ConstantFunction(1), R.transform.Identity(1)]]
+            ev, et, rk_ = R.tgedmd.amuset_hosvd(data, phi, sig, threshold=0, return_option='eigentensors')
+            outs = list(et) if isinstance(et, (list, tuple)) else [et]
+            args = {}
+        elif routine == 'transform.hocur':
+            data = ctx.input('data', (2, 3), False)
+            phi = [_funcs(ctx, R.transform, 1, ['const', 'id']), [R.transform.Identity(1), R.transform.Monomial(1, 2)]]
+            outs = [R.transform.hocur(data, phi, ranks=2, repeats=1, multiplier=10, progress=False)]
+            args = {}
         elif routine in ('tdmd_exact', 'tdmd_standard'):
             sxx = {'rows': [2, 2], 'cols': [1, 1], 'ranks': [1, 2, 1]}
             ev, modes = getattr(R.tdmd, routine)(x, y)
